@@ -218,7 +218,7 @@ def parseSite (s : String) : Option PSite :=
 
 def globalKinds : List String :=
   ["sb", "rwsb", "sbc", "sbtd", "sbreg", "sbarr", "rwsbarr", "sbarr2", "sbarru", "sbbl", "sbtdarr", "sbarrtd", "sbarrtd2", "sbmem",
-   "sbparam", "cb", "cbuf", "gv", "gs", "st", "sbmulti", "sbns", "sbst", "sbex", "sblocal", "cbmem"]
+   "sbparam", "cb", "cbuf", "gv", "gs", "st", "sbmulti", "sbns", "sbst", "sbex", "sblocal", "cbmem", "sbtwo", "decoy"]
 def modes : List String := ["np", "pipe", "npo", "pname"]
 /-- wrappers that only exist for the plain typed loads -/
 def plainLoadWraps : List String := ["gi", "da", "dt", "dta", "pd", "sl"]
@@ -232,7 +232,7 @@ def wraps : List String :=
     registry that matters).  An extern global's *base* type is made `const` before the declarator's array
     dimensions are applied (`parse_globaltype`: "all extern variables are implicitly const"), so `T g[4]` is
     `Array(Modifier(const, T))` and, with `typedef T A[2]`, `A g[3]` is `Array(Modifier(const, Array(T)))`. -/
-def globalOf (kind : String) (r : TyRef) : List GTy :=
+def globalOf (kind : String) (r : TyRef) (i : Nat) : List GTy :=
   let one (x : GTy) : List GTy := [x]
   let sb := GTy.modifier (.object "StructuredBuffer" (some r))
   let rwsb := GTy.modifier (.object "RWStructuredBuffer" (some r))
@@ -256,6 +256,17 @@ def globalOf (kind : String) (r : TyRef) : List GTy :=
   else if kind == "sbst" then one (.object "StructuredBuffer" (some r))
   -- a local variable is not in the global registry
   else if kind == "sblocal" then []
+  -- one struct template `WT<T> { T m; }` instantiated with `float` and with the site's type: two struct types of their own
+  else if kind == "sbtwo" then
+    [.modifier (.object "StructuredBuffer" (some ⟨6000000 + i, .struct (Tys.ofList [.scalar .Float32])⟩)),
+     .modifier (.object "StructuredBuffer" (some ⟨5000000 + i, .struct (Tys.ofList [r.ty])⟩))]
+  -- resources of other kinds, plain variables, and structured buffers of scalars (8 / 8, they agree)
+  else if kind == "decoy" then
+    [.modifier (.object "Buffer" none), .modifier (.object "RWBuffer" none), .modifier (.object "Texture2D" none),
+     .modifier (.object "RWTexture2D" none), .modifier (.object "SamplerState" none),
+     .modifier (.object "ByteAddressBuffer" none), .other, .other, .other, .modifier (.object "RWByteAddressBuffer" none),
+     .modifier (.object "StructuredBuffer" (some ⟨7000000, .scalar .Float32⟩)),
+     .modifier (.object "RWStructuredBuffer" (some ⟨7000001, .scalar .UInt32⟩))]
   -- `ConstantBuffer<H>` where `H` has a structured-buffer member: an object the loop does not match
   else if kind == "cbmem" then one (.modifier (.object "ConstantBuffer" none))
   else if kind == "sbparam" then []
@@ -276,7 +287,7 @@ def moduleOf (refs : List TyRef) (sites : List PSite) : Module :=
   let indexed := sites.zipIdx
   let refOf (s : PSite) : TyRef := refs.getD s.ty ⟨0, .other .Void⟩
   let globals := indexed.flatMap fun (s, i) =>
-    if s.wrap == "" then (globalOf s.kind (refOf s)).map fun g => (⟨g, "G" ++ toString i⟩ : Global) else []
+    if s.wrap == "" then (globalOf s.kind (refOf s) i).map fun g => (⟨g, "G" ++ toString i⟩ : Global) else []
   -- `dt` / `dta`: the type argument is the template parameter itself / an array of it (a type of its own)
   let fnOf (si : PSite × Nat) : List Fn :=
     let s := si.1
